@@ -438,6 +438,9 @@ def apply_repo(w, e, fi, clsbind, args, kwargs, s, closure=None, raw=False):
         # free variables of a nested function / lambda: the current bindings when it is called in
         # the frame that created it (late binding), else the snapshot taken at creation
         same_frame = w.fi is fi.parent or getattr(w.fi, "qualname", None) == fi.parent.qualname
+        # ... or a sibling: both are nested in the same function and see the same variables of it
+        if not same_frame and getattr(w.fi, "parent", None) is not None and w.fi.parent.qualname == fi.parent.qualname:
+            same_frame = True
         caps = dict(closure[2]) if closure is not None and len(closure) > 2 else {}
         order = list(order)
         for nm in fi.free_vars():
